@@ -24,6 +24,7 @@ class Func:
     line: int = 0
     crate: str = ''
     const_val: str = None   # for `const X: T = const ...;`
+    debug_raw: dict = field(default_factory=dict)
 
     @property
     def last(self):
@@ -545,7 +546,11 @@ def parse_file(path, crate=''):
             elif ls.startswith('debug ') and cur is None:
                 md = re.match(r'debug (\S+) => _(\d+);', ls)
                 if md:
-                    f.debug[md.group(1)] = int(md.group(2))
+                    f.debug.setdefault(md.group(1), int(md.group(2)))
+                else:
+                    md = re.match(r'debug (\S+) => (.*);$', ls)
+                    if md:
+                        f.debug_raw.setdefault(md.group(1), md.group(2))
             else:
                 mb = re.match(r'bb(\d+)( \(cleanup\))?: \{$', ls)
                 if mb:
